@@ -29,7 +29,9 @@ META = {
                     "thorough": "T<=4, n<=3; thresholder 4 rows, 3 groups; 30 seeds"},
     "trusted_base": ["z3", "symx", "RNG contract stub (validated against numpy.random.RandomState)", "pandas as executed"],
     "stubs": ["check_random_state in exponentiated_gradient / _interpolated_thresholder -> contract RNG", "check_array pass-through", "score provider"],
-    "assumptions": ["u in the open interval (0,1) (u=0 is a null event)", "weights_ >= 0 summing to 1", "p0 in [0,1], p1=1-p0, p_ignore, constant in [0,1]"],
+    "assumptions": ["one row of the '-inf' thresholder jobs carries a concrete +inf / -inf score next to the symbolic ones (still a valid distribution)",
+                    "job thr-mixedlabels: rules keyed '1' and 'a' (the state a fit on a mixed-type label list reaches), the same row queried in two batches",
+                    "u in the open interval (0,1) (u=0 is a null event)", "weights_ >= 0 summing to 1", "p0 in [0,1], p1=1-p0, p_ignore, constant in [0,1]"],
     "outside": ["frequencies of the real RNG stream", "states not reachable by fit are included (over-approximation); counter-examples are replayed on the real code with the real RNG"],
 }
 MANIFEST = {
